@@ -11,7 +11,7 @@ import (
 // flushes, clean restarts and crashes, at reduced capacities so that trees of
 // three and four levels appear within a few dozen rows).
 
-var fullAlpha = alphaOpt{Tables: []string{"t1", "t2", "t3"}, Inserts: []int{1, 4, 9}, BigInsert: true, Updates: true, Deletes: true}
+var fullAlpha = alphaOpt{Tables: []string{"t1", "t2", "t3"}, Inserts: []int{1, 4, 9}, BigInsert: true, NullInsert: true, Updates: true, Deletes: true}
 var twoAlpha = alphaOpt{Tables: []string{"t1", "t2"}, Inserts: []int{1, 9}, BigInsert: false, Updates: true, Deletes: true}
 
 func init() {
@@ -37,7 +37,7 @@ func runC01(env *lib.Env, rep *lib.Report) {
 	cfgs = append(cfgs, histCfg{Name: "real/empty/deep", Opt: real, Seed: "empty", Alpha: twoAlpha, Depth: d + 1})
 	rep.Bounds["depth"] = d
 	rep.Bounds["configs"] = cfgNames(cfgs)
-	rep.Bounds["alphabet"] = "CREATE TABLE t1/t2/t3; per table INSERT 1/4/9 rows, INSERT one 380-byte row, UPDATE lower half/all, DELETE upper half/last/all (only statements enabled in the current state)"
+	rep.Bounds["alphabet"] = "CREATE TABLE t1/t2/t3; per table INSERT 1/4/9 rows, INSERT one 380-byte row, INSERT two rows with NULLs in every other column, UPDATE lower half/all, DELETE upper half/last/all (only statements enabled in the current state)"
 	explore(env, rep, 0, histBody(cfgs, 0))
 	// supplement (one execution, not an enumeration): a long deterministic history at real capacity
 	if env.Shard == 0 && env.Replay == "" {
@@ -103,6 +103,9 @@ func runC11(env *lib.Env, rep *lib.Report) {
 	var cfgs []histCfg
 	for _, caps := range [][2]int{{3, 3}, {4, 3}, {3, 4}, {4, 4}} {
 		for _, seed := range []string{"empty", "interleaved", "t1x30"} {
+			if !env.Thorough() && caps[0] != caps[1] && seed != "interleaved" {
+				continue // quick tier: the mixed capacities only from the interleaved seed
+			}
 			cfgs = append(cfgs, histCfg{Name: fmt.Sprintf("leaf%d-int%d/%s", caps[0], caps[1], seed), Opt: worldOpt{Leaf: caps[0], Internal: caps[1]},
 				Seed: seed, Alpha: alpha, Depth: d, TickChoice: true, Reopen: true, Crash: true, Walk: true, OnlyWalk: true})
 		}
